@@ -53,6 +53,14 @@ func verif_ReadMsg(c io.Reader) {
 	verif.Ensures(verif.Same(m, verif.NthRet[Message]("MsgCtl).ReadMsg", 0, 0)) && err == verif.RetErr("MsgCtl).ReadMsg", 1), "codec_result_returned")
 }
 
+// Dispatcher.Send is called from message handlers and worker loops of a
+// session; it waits for the writer only inside a select that also watches the
+// dispatcher's end (C16 "no interleaving wedges"): after the connection died
+// nobody reads the queue any more, and a bare send would park the caller - and
+// whatever lock it holds - for good.
+//
+//verif:noblock (*~/pkg/msg.Dispatcher).Send props=C16
+
 // ReadMsgInto ("without reading past the frame"): the registered codec reads
 // from the caller's reader itself - no buffering layer that would swallow the
 // bytes that follow the frame (the payload after StartWorkConn, the next
